@@ -5,6 +5,9 @@ HERE = os.path.dirname(os.path.abspath(__file__))
 # id -> (built?, level, technique, level text, level note, design ref)
 RACE = "Go race detector (-race build, GORACE log parsed, reports de-duplicated)"
 T = {
+ "C09": (True, "exploration", "Go race detector + correlation-token isolation monitor under a PRNG hook scheduler (concurrent runs), and an online history checker (reference state machine) over accessor sequences",
+         "Concurrent runs of 8..64 goroutines against one handler instance under -race, GOMAXPROCS 1/2/4/16 and a hook callback that perturbs the schedule at the inter-stage suspension points: every value visible in the pipeline and in the response must carry the token of its own request, and the race log must be empty; plus thousands of accessor sequences judged against a memoisation state machine via authenticator/consumer/lookup counters. Shows absence of violations on the interleavings actually produced (count in evidence), nothing more.",
+         "trusts the Go race detector (reports only races on executed accesses), the token discipline of the harness collaborators, and the verif hook points (DESIGN Appendix A)", "DESIGN.md §4 C09"),
  "C03": (True, "exploration", "denotation-function monitor: enumerated declaration space x boundary-literal pools x presence shapes through the real untyped handler; value, Go type, 422 and panics judged per request",
          "The declaration space (3572 declarations: location x type/format x collection format x required x default x allowEmpty x validation) is enumerated completely in the thorough tier (half of it, PRNG-chosen, in quick); each declaration is driven with the boundary literals of its type and all presence shapes; the oracle is a denotation function written from the statement. Exploration, not proof: literal pools are finite.",
          "trusts strconv/time/encoding/base64 as the definition of literal grammars, net/http for delivery, and the reference denotation; zones the statement leaves open (strconv extras, empty text with validations, non-RFC3339 date-times) are not judged", "DESIGN.md §4 C03"),
